@@ -345,7 +345,7 @@ def differential(prop_id, cases, monitor=None, finding_class=None, nontrivial=No
     impl = run_impl(lines, env=impl_env)
     model = run_model(lines)
     for l, a, b in zip(lines, impl, model):
-        if a == "BADCASE" or b == "BADCASE" or a is None or b is None or a.startswith("NO-OUTPUT") or b.startswith("NO-OUTPUT") or b == "MODEL-STACK-OVERFLOW":
+        if a is None or b is None or a in ("BADCASE", "EXHAUSTED") or b == "BADCASE" or a.startswith("NO-OUTPUT") or b.startswith("NO-OUTPUT") or b.startswith("MODEL-") or b.startswith("STUCK"):
             raise RuntimeError("machinery error on case %r: impl=%r model=%r" % (l, a, b))
     disagree = [i for i in range(len(lines)) if impl[i] != model[i]]
     mon = {}
@@ -365,13 +365,16 @@ def differential(prop_id, cases, monitor=None, finding_class=None, nontrivial=No
     printed_known = set()
     reported = 0
 
+    def invalid(o):
+        return o is None or o in ("BADCASE", "EXHAUSTED") or o.startswith("STUCK") or o.startswith("NO-OUTPUT") or o.startswith("MODEL-")
+
     def fails_batch(cands):
         im = run_impl(cands, env=impl_env)
+        mo = run_model(cands)
         if monitor is not None:
             mr = run_model([monitor(c, o) for c, o in zip(cands, im)])
-            return [(not r.startswith("ok")) and r != "BADCASE" and o != "BADCASE" for r, o in zip(mr, im)]
-        mo = run_model(cands)
-        return [a != b and a != "BADCASE" and b != "BADCASE" for a, b in zip(im, mo)]
+            return [(not r.startswith("ok")) and not invalid(r) and not invalid(o) and not invalid(m) for r, o, m in zip(mr, im, mo)]
+        return [a != b and not invalid(a) and not invalid(b) for a, b in zip(im, mo)]
 
     known_hits = Counter()
     unknown_failing = []
@@ -384,7 +387,16 @@ def differential(prop_id, cases, monitor=None, finding_class=None, nontrivial=No
                 print("KNOWN-FINDING: property=%s class=%s %s (e.g. case %s)" % (prop_id, cls, known[(prop_id, cls)], lines[i][:200]))
         else:
             unknown_failing.append(i)
+    # report one representative per distinct verdict first
+    seen_groups = set()
+    ordered = []
     for i in unknown_failing:
+        g = mon[i] if monitor is not None else labels[i]
+        if g not in seen_groups:
+            seen_groups.add(g)
+            ordered.append(i)
+    ordered += [i for i in unknown_failing if i not in set(ordered)]
+    for i in ordered:
         violations += 1
         if reported >= max_reports:
             continue
